@@ -26,7 +26,7 @@ for f in sorted(lines):
         continue
     tot = len(lines[f]); cov = sum(1 for v in lines[f].values() if v)
     print(f"== {f}: {cov}/{tot} lines ({100*cov//max(tot,1)}%)")
-    src = open("/repo/" + f).read().split("\n")
+    src = open(os.path.join(os.environ.get("VERIF_REPO", os.path.normpath(os.path.join(os.path.dirname(os.path.abspath(__file__)), "..", "..", "repo"))), f)).read().split("\n")
     # uncovered ranges outside #[cfg(test)] mod tests
     test_start = next((i + 1 for i, s in enumerate(src) if re.match(r"\s*mod tests?\s*\{", s)), 10**9)
     unc = sorted(n for n, v in lines[f].items() if not v and n < test_start)
